@@ -56,6 +56,13 @@ LatticeValues ==
                     \cup (IF GIF \in F THEN {"Certifications"} ELSE {})}
     \cup {[type |-> "Params", v |-> l] : l \in {x \in ParamsAlts : \A i \in 1..Len(x) : x[i] \in KnownAlgs}}
 
+\* the dictionary of the source and the texts some standard parser / classifier treats specially
+\* (an address, a number, a date, mixed case, marks) in every text member of the entity types: a
+\* text that fits round-trips whatever it looks like
+DictValues ==
+    UNION {{[type |-> t, v |-> v] : v \in DictOver(t, F, FALSE, MinOf(t, F, FALSE))} : t \in {"Rp", "User", "Desc", "DescRef"}}
+    \cup {[type |-> "Rp", v |-> [RpMin EXCEPT !.id = w]] : w \in TextAlts(256)}
+
 \* types the harness can build through the public API (the others are reached from bytes only)
 Constructible == {"Rp", "User", "Desc", "Param", "Params", "McExt", "GaExtOut", "GetInfoResp", "GetInfoOptions",
                   "Certifications", "CpResp", "LbResp", "CoseEcdh", "CoseAny", "Version", "Extension", "Transport",
@@ -72,7 +79,7 @@ IconException ==
         @@ [sv |-> <<sv>>, reenc |-> EncTy(T_Struct("Rp"), Lossy(T_Struct("Rp"), sv, F), F)]}
 
 MC_Cases ==
-    {RtCase(x) : x \in Values \cup LatticeValues} \cup IconException
+    {RtCase(x) : x \in Values \cup LatticeValues \cup DictValues} \cup IconException
     \cup {TypeEncCase(x.type, x.v, "construct") : x \in {y \in Values : y.type \in Constructible}}
 
 \* without the per-member lattices (used where the same corpus is run under many configurations)
